@@ -710,23 +710,24 @@ def assignLoc (s : Store) (name : Name) (ser : Series) (l : Loc) (v : Operand) :
   | .nonIntPos p => if p < firstDim ser then assignAt s name ser (viewPos ser p) v else (s, .raised .index)
   | .slice a b => assignAt s name ser (viewSlice ser (pySlice (firstDim ser) (some a) (some b) 1)) v
 
-/-- `obj[name, label] = v`.  The label is located first; the name is looked up in `__dict__` afterwards. -/
+/-- `obj[name, label] = v`.  The name is checked against the index first (as in `__getitem__`), then the label
+    is located. -/
 def setLabel (s : Store) (name : Name) (label : Nat) (v : Operand) : Store × Outcome :=
-  match locate s label with
-  | .missing => (s, .raised .key)
-  | l =>
-    match s.get name with
-    | none => (s, .raised .key)
-    | some ser => assignLoc s name ser l v
+  match s.get name with
+  | none => (s, .raised .key)
+  | some ser =>
+    match locate s label with
+    | .missing => (s, .raised .key)
+    | l => assignLoc s name ser l v
 
 def setLabelSlice (s : Store) (name : Name) (a b : Option Nat) (step : Option Int) (v : Operand) :
     Store × Outcome :=
-  match resolveSlice s a b step with
-  | .error e => (s, .raised e)
-  | .ok (lo, hi, st) =>
-    match s.get name with
-    | none => (s, .raised .key)
-    | some ser =>
+  match s.get name with
+  | none => (s, .raised .key)
+  | some ser =>
+    match resolveSlice s a b step with
+    | .error e => (s, .raised e)
+    | .ok (lo, hi, st) =>
       match pySliceAny (firstDim ser) (some lo) (some hi) (some st) with
       | none => (s, .raised .valueShape)
       | some ps => assignAt s name ser (viewSlice ser ps) v
